@@ -133,7 +133,7 @@ theorem finality_l1_head_monotone (n l l' : Nat) (hl : l ≤ l') (h : finality n
 
 /-- The status shown in a block header is the finality of the block's own number. -/
 theorem header_status (nd : Node) (b : Block) (wf : WellFormed nd) (i : Nat) (h : nd.chain[i]? = some b) :
-    (hdrOf nd b).status = finality i nd.l1 ∧ (hdrOf nd b).number = i := by
+    (hdrOf nd b).status = finality i (statusL1 nd) ∧ (hdrOf nd b).number = i := by
   have := wf i b h
   simp [hdrOf, this]
 
@@ -151,7 +151,7 @@ theorem block_methods_answer_denoted_block (ver : Ver) (nd : Node) (id : BlockId
       blockWithTxHashes ver nd id = .blockHashes (hdrOf nd b) (b.txs.map (·.hash)) ∧
       blockWithTxs ver nd id = .blockTxs (hdrOf nd b) b.txs ∧
       blockWithReceipts ver nd id =
-        .blockReceipts (hdrOf nd b) (b.txs.map (fun t => (t, finality b.number nd.l1))) ∧
+        .blockReceipts (hdrOf nd b) (b.txs.map (fun t => (t, finality b.number (statusL1 nd)))) ∧
       blockTransactionCount ver nd id = .num b.txs.length ∧
       stateUpdate ver nd id f = .update b.hash b.root b.oldRoot (filterDiff ver f b.diff)
     | none =>
@@ -282,13 +282,13 @@ theorem txByHash_notfound_iff (nd : Node) (h : Nat) (wf : WellFormed nd) :
 block's finality. -/
 theorem receipt_sound (nd : Node) (h n bh : Nat) (t : Tx) (f : Fin) (wf : WellFormed nd)
     (ha : transactionReceipt nd h = .receipt t f n bh) :
-    t.hash = h ∧ f = finality n nd.l1 ∧ ∃ b, nd.chain[n]? = some b ∧ t ∈ b.txs ∧ bh = b.hash :=
+    t.hash = h ∧ f = finality n (statusL1 nd) ∧ ∃ b, nd.chain[n]? = some b ∧ t ∈ b.txs ∧ bh = b.hash :=
   transactionReceipt_sound wf ha
 
 /-- A status is the finality of the holding block and the execution result of that transaction. -/
 theorem status_sound (nd : Node) (h : Nat) (f : Fin) (r : Bool) (wf : WellFormed nd)
     (ha : transactionStatus nd h = .status f r) :
-    ∃ n b t, nd.chain[n]? = some b ∧ t ∈ b.txs ∧ t.hash = h ∧ f = finality n nd.l1 ∧ r = t.reverted :=
+    ∃ n b t, nd.chain[n]? = some b ∧ t ∈ b.txs ∧ t.hash = h ∧ f = finality n (statusL1 nd) ∧ r = t.reverted :=
   transactionStatus_sound wf ha
 
 /-! ## State methods -/
@@ -533,7 +533,7 @@ theorem serve_block_methods_reachable (be : Backend) (ver : Ver) (ops : List Op)
       serve be ver nd (.blockWithTxHashes raw) = .blockHashes (hdrOf nd b) (b.txs.map (·.hash)) ∧
       serve be ver nd (.blockWithTxs raw) = .blockTxs (hdrOf nd b) b.txs ∧
       serve be ver nd (.blockWithReceipts raw) =
-        .blockReceipts (hdrOf nd b) (b.txs.map (fun t => (t, finality b.number nd.l1))) ∧
+        .blockReceipts (hdrOf nd b) (b.txs.map (fun t => (t, finality b.number (statusL1 nd)))) ∧
       serve be ver nd (.blockTransactionCount raw) = .num b.txs.length ∧
       serve be ver nd (.stateUpdate raw []) = .update b.hash b.root b.oldRoot (filterDiff ver [] b.diff)
     | none =>
@@ -626,8 +626,8 @@ getBlockWithReceipts shows for it. -/
 theorem by_hash_complete (nd : Node) (n i : Nat) (b : Block) (t : Tx) (wf : WellFormed nd)
     (hd : TxHashesDistinct nd) (hb : nd.chain[n]? = some b) (ht : b.txs[i]? = some t) :
     transactionByHash nd t.hash = .tx t ∧
-      transactionReceipt nd t.hash = .receipt t (finality n nd.l1) n b.hash ∧
-      transactionStatus nd t.hash = .status (finality n nd.l1) t.reverted :=
+      transactionReceipt nd t.hash = .receipt t (finality n (statusL1 nd)) n b.hash ∧
+      transactionStatus nd t.hash = .status (finality n (statusL1 nd)) t.reverted :=
   Juno.C08.by_hash_complete wf hd hb ht
 
 /-! ## v10 getStorageAt with INCLUDE_LAST_UPDATE_BLOCK -/
